@@ -28,23 +28,30 @@ THEOREMS = [
     "C11_parents_repaired",
 ]
 RULE = (
-    "seeded scenes: parentless term/If nodes, children of a Workflow, children of a macro inside a workflow "
-    "or parentless, children of a macro nested in a macro (the macro's sub-graph is generated per case), random "
-    "data DAG per level (3 input slots, 0..2 connections), optional DAG-wiring of the owners beforehand, random "
-    "hand-made signals (a >> b, c << (a, b), true/false/failed -> run/accumulate_and_run), hand-set starting "
-    "nodes; every leaf as target x with/without run_parent_trees_too x {no fault, failing upstream node, data "
-    "cycle, executor in the closure, data from another scope}; half of the cases satisfy ClosureEmitsOnlyRan "
-    "and have no signal on a driving macro. Non-trivial = some pulled level has a closure of >= 2 nodes and "
-    "the pull got past the refusal checks; distinct by canonical case"
+    "hand-written corpus (witnesses of KF-C11-1..4, P18, P25, refusals, three levels) + seeded scenes: parentless "
+    "term/If nodes, children of a Workflow, children of a macro inside a workflow or parentless, children of a "
+    "macro nested in a macro (the macro's sub-graph is generated per case), random data DAG per level (3 input "
+    "slots, 0..2 connections), optional DAG-wiring of the owners beforehand, random hand-made signals (a >> b, "
+    "c << (a, b), true/false/failed -> run/accumulate_and_run, forward only), hand-set starting nodes; quick: "
+    "two targets per scene, thorough: every leaf x with and without run_parent_trees_too; faults {none, failing "
+    "upstream node(s), data cycle, executor inside an inspected closure, data from another scope}; every "
+    "even-numbered scene satisfies ClosureEmitsOnlyRan and DriverSilent (no failure is excusable there: the "
+    "oracle computes both hypotheses from the observations and puts them into the signature). Non-trivial = "
+    "some pulled level has a closure of >= 2 nodes and the pull got past the refusal checks; distinct by "
+    "canonical case"
 )
 TRUSTED = [
     "model Pull.upstream/drive/pull transcribe Node.run_data_tree / pull / __call__, the linear wiring helper "
     "with its fallback recovery, disconnect_run, and signal propagation (direct calls without a running parent, "
-    "the FIFO signal queue under a running parent); node bodies are 'log the call, maybe raise'",
+    "the FIFO signal queue under a running parent); node bodies are 'log the call, maybe raise'; data readiness "
+    "is not modelled (every input of the harness nodes has a default)",
     "iteration order of the closure set and the tie-breaking of toposort_flatten are observed on the "
     "implementation (module-attribute wrappers that call the originals) and checked by the model for validity",
     "label + str(id(node)) is injective on live nodes; caching switched off on every node (C05's subject)",
-    "only ancestors of the target are macros; targets are leaf nodes",
+    "a macro pulled over as a sibling runs as one unit (model: one node that fails iff something inside fails); "
+    "targets are leaf nodes",
+    "the model carries 8 variants (3 switches); the implementation has to agree with one and the same variant "
+    "on every case of a run (now V000 = pinned; V111 = all proposed repairs)",
 ]
 ASSUMPTIONS = [
     "wrapped functions are deterministic and touch nothing but their arguments",
@@ -423,14 +430,15 @@ def model_input(case, impl):
         lines.append(f"automate {p} {int(_get(init['automate'], p))}")
     if case.get("exec"):
         lines.append("exec " + " ".join(map(str, case["exec"])))
-    if case.get("fails"):
-        # a macro that runs as one unit fails iff something inside it fails
-        fl = set(case["fails"])
-        for g in case["fails"]:
-            p = _get(w["parent"], g)
-            while p is not None:
-                fl.add(p)
-                p = _get(w["parent"], p)
+    # a macro that is pulled over as a sibling runs as one unit; whether its inside raises (that depends on its
+    # own wiring and starting nodes, C09's subject) is observed: it is marked failed afterwards
+    fl = set(case.get("fails", []))
+    if impl["recs"]:
+        last = impl["recs"][-1]
+        anc = set(_levels(last["t"], True, _ik(w["parent"])))
+        fl |= {g for g in last["after"]["failed"] if g in w["composites"] and g not in anc
+               and g not in last["before"]["failed"]}
+    if fl:
         lines.append("fails " + " ".join(map(str, sorted(fl))))
     for g, v in sorted((int(g), v) for g, v in w["ifs"].items()):
         lines.append(f"truth {g} {int(v)}")
@@ -713,7 +721,25 @@ def gen_cases(rng, tier):
                 if sc["_meta"]["fault"] == "exec":
                     sc["exec"] = place_executor(rng, sc, t, not par)
                 yield with_pulls(sc, [[t, int(not par)]])
-    # a malformed stream is exercised by `corpus_malformed` through the driver directly
+    if tier == "thorough":
+        yield from small_scope()
+
+
+def small_scope():
+    """every data DAG on three nodes (edges i -> j for i < j) x parentless / workflow children x every target x
+    {nobody, each node} failing x {no hand-made signal, 0 >> 2, 0 >> 1 and 1 >> 2} x with / without parents"""
+    import itertools
+
+    pairs = [(0, 1), (0, 2), (1, 2)]
+    for top in ("none", "wf"):
+        n = 4 if top == "wf" else 3
+        for mask in range(8):
+            edges = [[j, "a" if i == 0 else "b", i] for k, (i, j) in enumerate(pairs) if mask >> k & 1]
+            level = {"nodes": [_term(0), _term(1), _term(2)], "edges": edges}
+            for t, fail, sig, par in itertools.product(range(3), (None, 0, 1, 2), range(3), (0, 1)):
+                signals = [[], [["rr", 0, 2]], [["rr", 0, 1], ["rr", 1, 2]]][sig]
+                yield _mk(top, level, n, post={"signals": signals}, fails=[] if fail is None else [fail],
+                          pulls=[[t, par]])
 
 
 # ----------------------------------------------------------------------------- oracle (independent of the model)
